@@ -3,6 +3,8 @@
 package types
 
 import (
+	"bytes"
+
 	"github.com/tendermint/tendermint/crypto/ed25519"
 	vp "github.com/tendermint/tendermint/internal/verifvp"
 	tmmath "github.com/tendermint/tendermint/libs/math"
@@ -460,4 +462,23 @@ func VP_C07_DecodedSetTotal() {
 	}
 	vp.Reach("decoded")
 	vp.Assert(got.TotalVotingPower() == sum, "C07.decoded-set-total-is-the-sum-of-its-members'-powers")
+}
+
+// C07 (the commit is for the block the caller asks about): the only link between the caller's block
+// id and the one the signatures cover is BlockID.Equals.  Two block ids of any valid shape (hash and
+// part-set hash absent or 32 bytes, symbolic bytes, symbolic part count) are equal exactly when
+// every field is.
+func VP_C07_BlockIDEquality() {
+	mk := func(tag string) BlockID {
+		hl := []int{0, 32}[vp.Choice(tag+".hash-length", 2)]
+		pl := []int{0, 32}[vp.Choice(tag+".parts-hash-length", 2)]
+		total := vp.Uint32(tag + ".parts-total")
+		vp.Assume(total < 1<<14)
+		return BlockID{Hash: vp.Bytes(tag+".hash", hl), PartSetHeader: PartSetHeader{Total: total, Hash: vp.Bytes(tag+".parts-hash", pl)}}
+	}
+	a, b := mk("a"), mk("b")
+	want := vp.And(bytes.Equal(a.Hash, b.Hash), a.PartSetHeader.Total == b.PartSetHeader.Total, bytes.Equal(a.PartSetHeader.Hash, b.PartSetHeader.Hash))
+	got := a.Equals(b)
+	vp.Assert(got == want, "C07.verify.block-ids-are-equal-exactly-when-every-field-is")
+	vp.Reach("compared")
 }
